@@ -212,6 +212,19 @@ pub fn check_moov(o: &mut Outcome, d: &[u8], tree: &[Node], m: &Movie, ctx: &str
                 if arrays.iter().any(|(b, _)| b & 0x40 != 0) {
                     o.fail("hvcC", format!("hvcC.array_reserved.{}", ctx), "hvcC array reserved bit set");
                 }
+                // progressive files take the sets from the first keyframe, where they were legal NAL units: each array entry
+                // must still be one (its type is the array's type; no 00 00 00 / 00 00 01 / 00 00 02 inside, H.265 7.4.2)
+                if ctx == "progressive" {
+                    for (b, units) in arrays {
+                        for u in units {
+                            let typ = u.first().map(|h| (h >> 1) & 0x3f).unwrap_or(255);
+                            let forbidden = u.windows(3).any(|w| w[0] == 0 && w[1] == 0 && w[2] <= 2);
+                            if typ != (b & 0x3f) || forbidden {
+                                o.fail("hvcC", format!("hvcC.nal_unit.{}", ctx), format!("hvcC array of type {} holds {} which is not a NAL unit of that type (forbidden zero sequence: {})", b & 0x3f, hex(u, 24), forbidden));
+                            }
+                        }
+                    }
+                }
             }
             ConfigRecord::Av1 { raw4, config_obus } => {
                 let delay_present = raw4[3] & 0x10 != 0;
